@@ -60,7 +60,11 @@ func RunStrSpace(r *Report, preds SPred, plan strPlan) *SS {
 		ver := ver
 		sds := seedsFor(ver, 1)
 		small := smallTokens(ver)
-		for i := 0; i < plan.k2Seeds && i < len(sds); i++ {
+		n2 := plan.k2Seeds
+		if ver == spec.V2 {
+			n2 = len(sds) // all group shapes of v2 (short vectors): base, full, full with ND, base+temporal, base+environmental, explicit ND groups
+		}
+		for i := 0; i < n2 && i < len(sds); i++ {
 			sd := sds[i]
 			if len(sd.elems) > 14 && i > 0 {
 				// very long seeds: keep k=2 affordable by using the minimal seed plus one optional
@@ -80,6 +84,10 @@ func RunStrSpace(r *Report, preds SPred, plan strPlan) *SS {
 	before = s.NStrings.Load()
 	enumV2(s, plan)
 	r.SetExtra("v2_language_strings", s.NStrings.Load()-before)
+	before = s.NStrings.Load()
+	enumSubsetsFixed(s, spec.V2, plan.seedRots)
+	enumSubsetsFixed(s, spec.V4, 1)
+	r.SetExtra("fixed_order_metric_subset_strings", s.NStrings.Load()-before)
 	before = s.NStrings.Load()
 	enumV3(s, spec.V30, plan)
 	enumV3(s, spec.V31, plan)
@@ -204,6 +212,46 @@ func enumV2(s *SS, plan strPlan) {
 			sb.WriteString(bs)
 			render(env, e, &sb, false)
 			s.Eval(sb.String())
+		}
+	})
+}
+
+// enumSubsetsFixed: for the fixed-order grammars, every subset of the metrics of a full vector, kept in
+// canonical order (v2: all 2^14; v4: all 2^11 base subsets x optional subsets of size <= 2 or >= 19),
+// x value rotations. Only a handful of these are valid; every other one must be rejected.
+func enumSubsetsFixed(s *SS, ver *spec.Version, rots int) {
+	r := s.R
+	nm := len(ver.Metrics)
+	nb := ver.NumBase()
+	nopt := nm - nb
+	var optSets []int
+	for set := 0; set < 1<<nopt; set++ {
+		c := bits.OnesCount(uint(set))
+		if nopt <= 8 || c <= 2 || c >= nopt-2 {
+			optSets = append(optSets, set)
+		}
+	}
+	Parallel(1<<nb, 16, func(bset int) {
+		if r.TooMany() {
+			return
+		}
+		for rot := 0; rot < rots; rot++ {
+			a := definedRot(ver, rot)
+			for _, oset := range optSets {
+				var el []string
+				for i := 0; i < nm; i++ {
+					in := false
+					if i < nb {
+						in = bset&(1<<i) != 0
+					} else {
+						in = oset&(1<<(i-nb)) != 0
+					}
+					if in {
+						el = append(el, ver.Elem(i, int(a[i])))
+					}
+				}
+				s.Eval(ver.Join(el))
+			}
 		}
 	})
 }
